@@ -234,15 +234,26 @@ Proof.
     apply (In_combine_seq ns 0 i x Hi).
 Qed.
 
-(* what an index row says about the cells of its note *)
+(* the offset column is one past the last frame the note fills, in every mode *)
+Lemma fr_end_off o mt n : fr_end o mt n = fr_off o mt n.
+Proof. unfold fr_end, fr_off. destruct (o_onset_only o); reflexivity. Qed.
+
+(* what an index row says about the cells of its note: row, [onset column, offset column) *)
 Lemma idx_designates_lemma o mt lo n r c :
   let '(r0, a, b, p) := idx_of o mt lo n in
   p = n_pitch n /\
-  (covers o mt lo n r c = true <->
-   r = r0 + pr_start o /\ a <= c /\ (if o_onset_only o then c = a else c < b)).
+  (covers o mt lo n r c = true <-> r = r0 + pr_start o /\ a <= c < b).
 Proof.
-  unfold idx_of. split; [reflexivity|]. unfold covers, fr_end.
-  destruct (o_onset_only o); lia.
+  unfold idx_of. split; [reflexivity|]. unfold covers. rewrite fr_end_off. lia.
+Qed.
+
+(* onset-only mode: every index row spans exactly one frame *)
+Lemma idx_onset_only_lemma o ns R : make_pianoroll o ns = Some R -> o_onset_only o = true ->
+  forall r a b p, In (r, a, b, p) (r_idx R) -> b = a + 1.
+Proof.
+  intros H Ho r a b p Hin. rewrite (idx_rows_lemma _ _ _ H) in Hin.
+  apply in_map_iff in Hin as [n [E _]]. unfold idx_of, fr_off in E. rewrite Ho in E.
+  injection E as <- <- <- <-. reflexivity.
 Qed.
 
 Lemma length_idx_lemma o ns R : make_pianoroll o ns = Some R -> List.length (r_idx R) = List.length ns.
@@ -649,13 +660,9 @@ Lemma example_unsorted_lemma :
     r_idx R = [(60, 1, 2, 60); (62, 0, 1, 62)].
 Proof. eexists. split; [vm_compute; reflexivity|]. vm_compute. repeat split; reflexivity. Qed.
 
-(* known finding C13-K1: in onset-only mode the third column of an index row is the nominal offset,
-   not onset + 1 *)
-Lemma idx_onset_only_refuted_lemma :
-  exists o ns R, o_onset_only o = true /\ make_pianoroll o ns = Some R /\
-    exists r a b p, In (r, a, b, p) (r_idx R) /\ b <> a + 1.
-Proof.
-  exists (mkOpts 2 true false (-1) 0 false true None false), [(60, 0%Q, 2%Q, 1)].
-  eexists. split; [reflexivity|]. split; [vm_compute; reflexivity|].
-  exists 60, 0, 4, 60. split; [left; reflexivity | lia].
-Qed.
+(* the former known finding C13-K1 (repaired in /repo): in onset-only mode the third column of an index
+   row is onset + 1 -- concrete instance *)
+Lemma example_onset_only_idx_lemma :
+  exists R, make_pianoroll (mkOpts 2 true false (-1) 0 false true None false) [(60, 0%Q, 2%Q, 1)] = Some R /\
+    r_idx R = [(60, 0, 1, 60)] /\ r_cols R = 4 /\ cell_at (r_cells R) 60 0 = 1 /\ cell_at (r_cells R) 60 1 = 0.
+Proof. eexists. split; [vm_compute; reflexivity|]. vm_compute. repeat split; reflexivity. Qed.
